@@ -25,8 +25,8 @@ import (
 	"verif/harness/internal/refmodel"
 )
 
-var names = []string{"a", "a/b", "b", "a\nb", "x*y", "ab", "_internal/x", "", "a/../b", "a/b/", "a//b", "a/../_internal/x"}
-var patterns = []string{"a", "a/b", "b", "a\nb", "x*y", "ab", "_internal/x", "", "*", "a/*", "*b", "a*", "**", "a*b", "a.b", "x\\*y", "_internal/*", "[ab]", "?", "a/*/b", "a*a", "ab*b", "*a*b*"}
+var names = []string{"a", "a/b", "b", "a\nb", "x*y", "ab", "_internal/x", "", "a/../b", "a/b/", "a//b", "a/../_internal/x", "x", " a", "a\n"}
+var patterns = []string{"a", "a/b", "b", "a\nb", "x*y", "ab", "_internal/x", "", "*", "a/*", "*b", "a*", "**", "a*b", "a.b", "x\\*y", "_internal/*", "[ab]", "?", "a/*/b", "a*a", "ab*b", "*a*b*", " a", "a\n", "*\n", "x"}
 var actions = []string{"get", "info", "put", "activate", "delete"}
 
 func genRules(rng *rand.Rand) []refmodel.Rule {
@@ -133,7 +133,7 @@ func TestC01(t *testing.T) {
 				su := realdb.Super()
 				var setup []string
 				for i, n := 0, 4+rng.IntN(10); i < n; i++ {
-					op := ops.Op{Kind: ops.Put, Name: append(names[:6:6], names[8:]...)[rng.IntN(10)]}
+					op := ops.Op{Kind: ops.Put, Name: append(names[:6:6], names[8:]...)[rng.IntN(13)]}
 					switch rng.IntN(6) {
 					case 0:
 						op.Kind = ops.Act
